@@ -66,26 +66,26 @@ type lockState struct {
 
 // Sim is the state of one run.
 type Sim struct {
-	mu       sync.Mutex
-	Tape     *Tape
-	cfg      Config
-	tasks    []*Task
-	byGid    map[uint64]*Task
-	notify   chan struct{}
-	shutdown bool
-	abort    bool
-	main     *Task
-	last     *Task
-	steps    int
-	seq      uint64
-	start    time.Time
-	end      time.Time
-	locks    map[unsafe.Pointer]*lockState
-	pools    map[*sync.Pool][]any
-	conds    map[unsafe.Pointer][]*Task
+	mu                 sync.Mutex
+	Tape               *Tape
+	cfg                Config
+	tasks              []*Task
+	byGid              map[uint64]*Task
+	notify             chan struct{}
+	shutdown           bool
+	abort              bool
+	main               *Task
+	last               *Task
+	steps              int
+	seq                uint64
+	start              time.Time
+	end                time.Time
+	locks              map[unsafe.Pointer]*lockState
+	pools              map[*sync.Pool][]any
+	conds              map[unsafe.Pointer][]*Task
 	poison, poisonInit bool
-	schedSig uint64
-	switches int
+	schedSig           uint64
+	switches           int
 	// targeted preemption: in some runs one yield site (the hotK-th distinct site
 	// met while preemption is on) switches tasks half of the time, so that narrow
 	// windows at one particular place are hit even when the rest of the run is calm
